@@ -201,7 +201,8 @@ def copies_ok(res, ty):
     return ok
 
 def run(chk, replay=None):
-    chk.proof_leg(["Serde/SerdeCheck.vo", "Gen/SerdeShapeGen.vo"], "Properties/C18.v", ["Serde/SerdeGeneric_proofs.v"], "Properties.C18")
+    chk.proof_leg(["Serde/SerdeCheck.vo", "Gen/SerdeShapeGen.vo", "Serde/JsonTextCheck.vo"], "Properties/C18.v",
+                   ["Serde/SerdeGeneric_proofs.v", "Serde/JsonText_proofs.v"], "Properties.C18")
     chk.assumptions += [
         "text layers (serde_json and serde_yaml printers/parsers, Rust float printing/parsing, textwrap::dedent) are third-party code outside the model: exercised by the correspondence run only (partial)",
         "serde_derive follows the rules stated at the top of coq/Serde/SerdeGeneric.v (validated by comparing serde_json::to_value of every generated value with the model's ser)",
@@ -213,8 +214,11 @@ def run(chk, replay=None):
     known = {k["class"]: k for k in load_known() if k.get("kind") == "finding" and k.get("property") == "C18"}
     quick = chk.tier == "quick"
     cases = []
+    text_replay = None
     if replay:
         cases = json.load(open(replay))["replay"]["cases"]
+        text_replay = [c for c in cases if c.get("leg") == "jsontext"]
+        cases = [c for c in cases if c.get("leg") != "jsontext"]
     else:
         n = {"gds": 220 if quick else 4000, "lef": 180 if quick else 3000}
         for ty in ("gds", "lef"):
@@ -279,6 +283,7 @@ def run(chk, replay=None):
         else:
             chk.violation("LefLibrary with layers = Some(Unsupported) does not survive the JSON/YAML copy: %s" % summarize(r),
                           {"cases": [{"ty": "lef_some_unsupported"}], "impl": [r]}, suffix="-someunsupported")
+    json_text_leg(chk, shapes, cases, hcases, text_replay)
     if viol:
         viol.sort(key=lambda x: val_size(x[0]["v"]))
         c, r, k = viol[0]
@@ -311,3 +316,310 @@ def summarize(r):
     if "gds_bytes_same" in r:
         out["gds_bytes_same"] = r["gds_bytes_same"]
     return json.dumps(out)[:700]
+
+
+# ---------------------------------------------------------------------------------------------------------------
+# Layer 2 (JSON text): the model's printer / parser / dedent (coq/Serde/JsonText.v) against
+# SerializationFormat::Json.{to_string, from_str, save, open}; harness op "jsonlayer", checks in coq/Serde/JsonTextCheck.v.
+# The float print/parse pair is an ORACLE taken from the implementation per case (tables bits->token, token->bits).
+
+# one character of every class the printer / parser / dedent treat differently
+TEXT_ALPHABET = ([chr(i) for i in range(0, 32)] + ['"', "\\", "/", " ", "a", "Z", "0", "9", "-", "+", ".", "e", "E", ":", ",", "#", "[", "]", "{", "}",
+                 "'", "u", "n", "t", "b", "f", "r", "\x7f", "\x80", "\x85", "\xa0", "\xe9", "\u07ff", "\u0800", "\u1680", "\u2003", "\u2028",
+                 "\u2029", "\u202f", "\u3000", "\ud7ff", "\ue000", "\ufeff", "\ufffd", "\uffff", "\U00010000", "\U0001F600", "\U0010ffff"])
+TEXT_INTS = [0, 1, -1, 9, 10, 99, 100, 255, 256, 65535, 2**31 - 1, -2**31, 2**32, 2**53, 2**53 + 1, 2**63 - 1, 2**63, 2**63 + 1, -2**63, -2**63 + 1,
+             2**64 - 1, 2**64 - 2, 10**18, 10**19, -10**18, 12345678901234567890, 9999999999999999999, 1000000000000000000]
+
+def gen_text_string(rng):
+    c = rng.randrange(5)
+    if c == 0:
+        return rng.choice(SPECIAL_STRINGS)
+    if c == 1:
+        return "".join(rng.choice(TEXT_ALPHABET) for _ in range(rng.randrange(0, 12)))
+    if c == 2:   # any scalar value
+        out = []
+        for _ in range(rng.randrange(1, 6)):
+            cp = rng.choice([rng.randrange(0, 0x80), rng.randrange(0x80, 0x800), rng.randrange(0x800, 0xd800), rng.randrange(0xe000, 0x10000),
+                             rng.randrange(0x10000, 0x110000)])
+            out.append(chr(cp))
+        return "".join(out)
+    if c == 3:
+        return "".join(rng.choice(SPECIAL_STRINGS) for _ in range(rng.randrange(1, 4)))
+    return rng.choice(["k", "name", "x", "", "a b"])
+
+def gen_sval(rng, depth, floats=True):
+    """a serde_json::Value-shaped tree (object keys distinct and in byte order, as the BTreeMap of Value keeps them)"""
+    c = rng.randrange(12 if depth > 0 else 8)
+    if c == 0: return None
+    if c == 1: return rng.random() < 0.5
+    if c == 2: return rng.choice(TEXT_INTS)
+    if c == 3: return rng.choice([rng.randrange(-2**63, 2**64), rng.randrange(-1000, 1000), rng.randrange(0, 10) * 10 ** rng.randrange(0, 19)])
+    if c in (4, 5): return gen_text_string(rng)
+    if c in (6, 7): return {"$f64": gen_f64(rng)} if floats else gen_text_string(rng)
+    if c in (8, 9):
+        n = rng.choice([0, 1, 1, 2, 3, 5, 8]) if depth > 1 else rng.choice([0, 1, 2])
+        return [gen_sval(rng, depth - 1, floats) for _ in range(n)]
+    n = rng.choice([0, 1, 1, 2, 3, 5, 8]) if depth > 1 else rng.choice([0, 1, 2])
+    keys = sorted({gen_text_string(rng) for _ in range(n)}, key=lambda k: k.encode("utf8"))
+    return {k: gen_sval(rng, depth - 1, floats) for k in keys if k != "$f64"}
+
+def wrap_sval(j, n):
+    for i in range(n):
+        j = [j] if i % 2 == 0 else {"k": j}
+    return j
+
+def sval_nodes(j):
+    if isinstance(j, list): return 1 + sum(sval_nodes(x) for x in j)
+    if isinstance(j, dict) and set(j.keys()) != {"$f64"}: return 1 + sum(sval_nodes(x) for x in j.values())
+    return 1
+
+def tree_to_coq(j):
+    """the harness' order-keeping Tree: seq = array, map = {"m": [[k, v], ...]}, double = {"f": bits}"""
+    if j is None: return Raw("SNull")
+    if isinstance(j, bool): return capp("SBool", cbool(j))
+    if isinstance(j, int): return capp("SInt", cz(j))
+    if isinstance(j, str): return capp("SStr", hexs(j))
+    if isinstance(j, list): return capp("SSeq", clist([tree_to_coq(x) for x in j]))
+    if "f" in j: return capp("SF64", cz(j["f"]))
+    return capp("SMap", clist([ctup(hexs(k), tree_to_coq(x)) for k, x in j["m"]]))
+
+def read_to_coq(r):
+    """{"ok": tree} | {"err": msg} -> option sval"""
+    return copt(tree_to_coq(r["ok"])) if isinstance(r, dict) and "ok" in r else Raw("None")
+
+def hexb(b):
+    """bytes -> Coq string; longer texts packed 7 bytes to a primitive integer (JsonTextCheck.us)"""
+    if len(b) <= 14:
+        return Raw('(hs "%s")' % b.hex())
+    return Raw("(us %d%%Z [%s]%%uint63)" % (len(b), "; ".join("%d" % int.from_bytes(b[i:i + 7], "big") for i in range(0, len(b), 7))))
+
+def tree_to_coq_p(j):
+    """as tree_to_coq, strings through hexb"""
+    if j is None: return Raw("SNull")
+    if isinstance(j, bool): return capp("SBool", cbool(j))
+    if isinstance(j, int): return capp("SInt", cz(j))
+    if isinstance(j, str): return capp("SStr", hexb(j.encode("utf8")))
+    if isinstance(j, list): return capp("SSeq", clist([tree_to_coq_p(x) for x in j]))
+    if "f" in j: return capp("SF64", cz(j["f"]))
+    return capp("SMap", clist([ctup(hexb(k.encode("utf8")), tree_to_coq_p(x)) for k, x in j["m"]]))
+
+def reads_to_coq(r, f):
+    """the two readings {"ok": tree} | {"err": msg} as option sval terms; f: (a, b) -> Coq term. One shared term when they are equal."""
+    a, b = r["from_str"], r["open"]
+    def one(x):
+        return copt(tree_to_coq_p(x["ok"])) if isinstance(x, dict) and "ok" in x else Raw("None")
+    if a == b:
+        return Raw("(let rd := %s in %s)" % (one(a), f(Raw("rd"), Raw("rd"))))
+    return f(one(a), one(b))
+
+MUT_BYTES = [b'"', b"\\", b",", b":", b"[", b"]", b"{", b"}", b" ", b"\n", b"\t", b"\r", b"0", b"1", b"9", b"-", b"+", b"t", b"f", b"n", b"u", b"/", b"x",
+             b"\x01", b"\x1f", b"\x7f", b"\x80", b"\xc3", b"\xe2\x80\xa8", b"\\u0041", b"\\ud83d\\ude00", b"\\ud83d", b"\\ude00", b"\\u00e9", b"\\/", b"\\b\\f",
+             b"true", b"null", b"false", b"[]", b"{}", b"00", b"-0", b"\xef\xbb\xbf", b"  ", b"\r\n", b"\\x", b"\\u12", b"\\uD83D\\uDE00", b"\\u0000"]
+
+def mutate_text(rng, t):
+    """one to three byte-level edits of a JSON text"""
+    b = bytearray(t)
+    for _ in range(rng.choice([1, 1, 1, 2, 3])):
+        k = rng.randrange(7)
+        pos = rng.randrange(len(b) + 1)
+        if k == 0 and b:
+            del b[min(pos, len(b) - 1)]
+        elif k in (1, 2):
+            b[pos:pos] = rng.choice(MUT_BYTES)
+        elif k == 3 and b:
+            p = min(pos, len(b) - 1)
+            b[p:p + 1] = rng.choice(MUT_BYTES)
+        elif k == 4:
+            b = b[:pos]
+        elif k == 5 and b:
+            q = min(len(b), pos + rng.randrange(1, 8))
+            b[pos:pos] = b[pos:q]
+        else:   # whole-text edits that dedent reacts to: indent every line, blank lines, CRLF, trailing newline
+            ind = rng.choice([b"  ", b"\t", b" \t", b"    ", b"\xc2\xa0", b"\xe2\x80\x83 "])
+            lines = bytes(b).split(b"\n")
+            kind = rng.randrange(4)
+            if kind == 0: lines = [ind + l for l in lines]
+            elif kind == 1: lines = [ind + l if i else l for i, l in enumerate(lines)] + [b""]
+            elif kind == 2: lines = [l + b"\r" for l in lines]
+            else: lines = [ind * (1 + i % 2) + l for i, l in enumerate(lines)] + [ind]
+            b = bytearray(b"\n".join(lines))
+    return bytes(b)
+
+HAND_TEXTS = [b"", b" ", b"null", b" null ", b"nul", b"nulll", b"true false", b"[", b"]", b"[]", b"[ ]", b"{ }", b"[,]", b"[1,]", b"[,1]", b"[1 2]", b"[1,,2]",
+              b"{\"a\":1,}", b"{\"a\" 1}", b"{\"a\":}", b"{a:1}", b"{\"a\":1 \"b\":2}", b"{\"a\":1,\"a\":2}", b"{1:2}", b"{\"a\":1}}", b"[1]]", b"[1] x", b"[1]\n\n",
+              b"0", b"-0", b"00", b"01", b"-01", b"-", b"+1", b"1", b"-1", b"18446744073709551615", b"18446744073709551616", b"-9223372036854775808",
+              b"-9223372036854775809", b"9223372036854775808", b"123456789012345678901234567890", b"1-2", b"1+2", b"--1", b"1e", b"0x10",
+              b"\"\"", b"\"a", b"\"\\\"\"", b"\"\\\\\"", b"\"\\/\"", b"\"\\b\\f\\n\\r\\t\"", b"\"\\a\"", b"\"\\u0041\"", b"\"\\u00e9\"", b"\"\\u00E9\"", b"\"\\u12\"",
+              b"\"\\u123g\"", b"\"\\ud83d\\ude00\"", b"\"\\uD83D\\uDE00\"", b"\"\\ud83d\"", b"\"\\ud83dx\"", b"\"\\ud83d\\u0041\"", b"\"\\ude00\"", b"\"\\ud83d\\ud83d\"",
+              b"\"\\udbff\\udfff\"", b"\"\\ud800\\udc00\"", b"\"\\uffff\"", b"\"\\u0000\"", b"\"\x00\"", b"\"\x1f\"", b"\"\n\"", b"\"\t\"", b"\"\x7f\"", b"\"\xc3\xa9\"",
+              b"\"\xc3\"", b"\"\xa9\"", b"\"\xe2\x80\xa8\"", b"\"\xed\xa0\x80\"", b"\"\xf4\x90\x80\x80\"", b"\"\xf0\x9f\x98\x80\"", b"\"\xc0\x80\"", b"\"\xe0\x80\x80\"",
+              b"\"\xf8\x88\x80\x80\x80\"", b"\xef\xbb\xbf1", b"\xef\xbb\xbf[]", b"[\"a\",\n \"b\"]", b"  [1,\n   2]", b"\t[1,\n\t\t2]\n", b"[1,\r\n2]\r\n", b"/**/1", b"[1,//\n2]",
+              b"tru", b"True", b"NaN", b"Infinity", b"-Infinity", b"nullx", b"truex", b"1x", b"\"a\"x", b"\"a\" \"b\"", b"[\"\\ud83d\\ude00\\u00e9\\\"\"]",
+              b"{\"k\": [\n  1\n]}", b"\x0c1", b"\x0b1", b"\xc2\xa01", b"1\xc2\xa0", b" \xe2\x80\x83[1,\n \xe2\x80\x83 2]"]
+HAND_TEXTS += [b"[" * n + b"]" * n for n in (1, 2, 126, 127, 128, 129)] + [b"[{\"k\":" * n + b"1" + b"}]" * n for n in (1, 63, 64, 65)]
+
+def json_text_leg(chk, shapes, cases, hcases, text_replay):
+    quick = chk.tier == "quick"
+    rng = chk.rng
+    tcases = []     # {"leg": "jsontext", "kind": "lib"|"any"|"text", ...}
+    if text_replay is not None:
+        tcases = [c for c in text_replay if c.get("kind") != "dedent"]
+    else:
+        nlib = 40 if quick else 600
+        for ty in ("gds", "lef"):
+            k = 0
+            for c, h in zip(cases, hcases):
+                if c["ty"] == ty and k < nlib:
+                    tcases.append({"leg": "jsontext", "kind": "lib", "ty": ty, "v": c["v"], "val": h["val"]})
+                    k += 1
+        for i in range(500 if quick else 12000):
+            j = gen_sval(rng, rng.choice([1, 2, 3, 4, 6]))
+            w = rng.choice([0] * 12 + [1, 2, 3, 5, 9])
+            tcases.append({"leg": "jsontext", "kind": "any", "val": j, "wrap": w})
+        for w in ([30, 60, 120, 124, 125, 126, 127, 128, 129, 140] if quick else list(range(100, 135)) * 3):
+            # around serde_json's recursion limit (128): small values, deeply wrapped
+            tcases.append({"leg": "jsontext", "kind": "any", "val": gen_sval(rng, rng.choice([0, 1, 2])), "wrap": w})
+        tcases.append({"leg": "jsontext", "kind": "any", "val": [[[]]] , "wrap": 124})
+        tcases.append({"leg": "jsontext", "kind": "any", "val": [[[]]] , "wrap": 125})
+        tcases.append({"leg": "jsontext", "kind": "any", "val": TEXT_INTS + SPECIAL_STRINGS + ["".join(TEXT_ALPHABET)], "wrap": 0})
+        tcases.append({"leg": "jsontext", "kind": "any", "val": {k: k for k in sorted(set(SPECIAL_STRINGS + TEXT_ALPHABET), key=lambda k: k.encode("utf8"))}, "wrap": 1})
+    # first pass through the implementation
+    def hcase(c):
+        if c["kind"] == "lib":
+            return {"ty": "jsonlayer", "lib": c["ty"], "val": c["val"]}
+        if c["kind"] == "any":
+            return {"ty": "jsonlayer", "lib": "any", "val": c["val"], "wrap": c["wrap"]}
+        return {"ty": "jsonlayer", "lib": "text", "hex": c["hex"]}
+    res = harness("c18", [hcase(c) for c in tcases])
+    if text_replay is None:
+        # parser against parser on damaged texts: edits of printed texts (float-free and with floats), and hand-written ones
+        pool = [r["text"].encode("utf8") for c, r in zip(tcases, res) if c["kind"] == "any" and "text" in r and len(r["text"]) < 1500]
+        extra = [{"leg": "jsontext", "kind": "text", "hex": t.hex()} for t in HAND_TEXTS]
+        for i in range(700 if quick else 20000):
+            if pool:
+                extra.append({"leg": "jsontext", "kind": "text", "hex": mutate_text(rng, rng.choice(pool)).hex()})
+        tcases += extra
+        res += harness("c18", [hcase(c) for c in extra])
+    items, idx = [], []
+    codes = [None] * len(tcases)
+    for i, (c, r) in enumerate(zip(tcases, res)):
+        if "from_str" not in r:
+            codes[i] = 2 if ("panic" in r or "crash" in r) else 5
+            continue
+        pt = clist([ctup(cstr(t), cz(b)) for t, b in r["parse"]])
+        if c["kind"] == "text":
+            items.append(reads_to_coq(r, lambda a, b: capp("json_parse_check", pt, hexb(bytes.fromhex(c["hex"])), cbool(r["from_str"] is not None), a, b)))
+        else:
+            ft = clist([ctup(cz(b), cstr(t)) for b, t in r["fmt"]])
+            text = hexb(r["text"].encode("utf8"))
+            if c["kind"] == "lib":
+                items.append(reads_to_coq(r, lambda a, b: capp("json_lib_check", Raw("%s_library_ty" % c["ty"]), val_to_coq(tuplify(c["v"])), ft, pt, text, a, b)))
+            else:
+                items.append(reads_to_coq(r, lambda a, b: capp("json_layer_check", ft, pt, sval_to_coq(wrap_sval(c["val"], c["wrap"])), text, a, b)))
+        idx.append(i)
+    hdr = ("From Coq Require Import ZArith List String Uint63.\nImport ListNotations.\n"
+           "From L21 Require Import Serde.SerdeGeneric Serde.SerdeCheck Serde.JsonText Serde.JsonTextCheck Gen.SerdeShapeGen.\nOpen Scope Z_scope.\n")
+    # big and small cases spread evenly over the coqc processes
+    order = sorted(range(len(items)), key=lambda k: -len(items[k]))
+    nsh = 16
+    perm = [k for s0 in range(nsh) for k in order[s0::nsh]]
+    out = coq_eval_lists(hdr, [items[k] for k in perm], chk.rundir, "c18j", shard=max(1, (len(items) + nsh - 1) // nsh))
+    for k, s in zip(perm, out):
+        codes[idx[k]] = parse_z(s)
+    dedent_leg(chk, text_replay)
+    kinds = {k: sum(1 for c in tcases if c["kind"] == k) for k in ("lib", "any", "text")}
+    accepted = sum(1 for c, r in zip(tcases, res) if c["kind"] == "text" and isinstance(r.get("open"), dict) and "ok" in r["open"])
+    nfloat = sum(len(r.get("fmt", [])) for r in res)
+    saved_bad = [c for c, r in zip(tcases, res) if r.get("saved_same") is False]
+    chk.cov["evaluations"] += len(tcases)
+    chk.cov["distinct_nontrivial"] += len({json.dumps(c.get("val", c.get("hex")), sort_keys=True) for c in tcases
+                                           if (c["kind"] == "text" and len(c["hex"]) > 16) or (c["kind"] != "text" and sval_nodes(wrap_sval(c["val"], c.get("wrap", 0))) > 8)})
+    chk.cov["traces_validated_against_impl"] += sum(1 for k in codes if k == 0)
+    chk.cov["rule"] += ("; JSON text layer: non-trivial = a value tree of more than 8 nodes, or a damaged/hand-written text longer than 8 bytes; distinct by value / by text")
+    chk.cov["input_distribution"]["json_text_layer"] = {
+        "library_values": kinds["lib"], "generic_values": kinds["any"], "damaged_or_handwritten_texts": kinds["text"],
+        "texts_the_impl_accepts_among_damaged": accepted, "doubles_printed_and_read_back": nfloat,
+        "max_nesting": max([c.get("wrap", 0) for c in tcases if c["kind"] == "any"] + [0]),
+        "text_bytes_compared": sum(len(r.get("text", "")) for r in res),
+        "codes": {str(k): codes.count(k) for k in sorted(set(codes), key=str)}}
+    chk.add_samples([{"leg": "jsontext", "kind": c["kind"], "input": (c.get("val") if c["kind"] != "text" else bytes.fromhex(c["hex"]).decode("utf8", "replace")),
+                      "wrap": c.get("wrap"), "impl_text": r.get("text", "")[:300], "code": k}
+                     for c, r, k in list(zip(tcases, res, codes))[:: max(1, len(tcases) // 3)] if len(json.dumps(c.get("val", ""))) < 600], k=3)
+    bad2 = [(c, r) for c, r, k in zip(tcases, res, codes) if k == 2]
+    bad1 = [(c, r, k) for c, r, k in zip(tcases, res, codes) if k in (1, 4, 5)]
+    chk.cov["correspondence_mismatches"] += len(bad1)
+    def tsize(c):
+        return len(json.dumps(c.get("val", c.get("hex"))))
+    if saved_bad:
+        c = min(saved_bad, key=tsize)
+        chk.violation("SerializationFormat::Json.save does not leave exactly the to_string text in the file (%d cases)" % len(saved_bad),
+                      {"cases": [c]}, suffix="-jsonsave")
+    if bad2:
+        bad2.sort(key=lambda x: tsize(x[0]))
+        c, r = bad2[0]
+        why = ""
+        rd = dict(r.get("parse", []))
+        offs = [(b, t, rd.get(t)) for b, t in r.get("fmt", []) if rd.get(t) != b]
+        if offs:
+            why = " (double with bits %d is printed as %s and read back as bits %s)" % offs[0]
+        chk.violation("the JSON text of a value does not read back as that value (%d of %d text cases)%s: from_str %s / open %s" % (
+                      len(bad2), len(tcases), why, json.dumps(r.get("from_str"))[:200], json.dumps(r.get("open"))[:200]),
+                      {"cases": [x[0] for x in bad2[:5]], "impl": [{k: v for k, v in x[1].items() if k != "text"} for x in bad2[:2]]}, suffix="-jsontext")
+    elif bad1:
+        bad1.sort(key=lambda x: tsize(x[0]))
+        c, r, k = bad1[0]
+        chk.broken.append("correspondence C18 JSON text layer: the model's printer/parser/dedent (coq/Serde/JsonText.v) differs from serde_json / textwrap "
+                          "(code %s, %d cases), smallest: %s -> %s" % (k, len(bad1), json.dumps(c)[:300], json.dumps(r)[:400]))
+        with open(os.path.join(chk.rundir, "jsontext_mismatch.json"), "w") as f:
+            json.dump([{"case": c, "impl": r, "code": k} for c, r, k in bad1[:20]], f, indent=1)
+
+
+DEDENT_INDENTS = ["", " ", "  ", "    ", "\t", "\t\t", " \t", "\t ", " ", "  ", "  ", " ", "  ", "　", "\u0085", "\x0b", "\x0c ", "​", "﻿"]
+DEDENT_BODIES = ["a", "b c", "{", "}", "\"k\": 1,", "x  ", "y\t", "é", " z", "- q", "#", " w"]
+TQ = "'" * 3
+
+def dedent_leg(chk, text_replay):
+    """textwrap::dedent as SerializationFormat::from_str applies it, observed through a TOML multi-line literal string
+    (harness op "dedent"), against the model's [dedent] (coq/Serde/JsonText.v)."""
+    rng = chk.rng
+    if text_replay is not None:
+        dcases = [c for c in text_replay if c.get("kind") == "dedent"]
+    else:
+        dcases = []
+        for i in range(160 if chk.tier == "quick" else 4000):
+            base = rng.choice(DEDENT_INDENTS)
+            lines = []
+            for _ in range(rng.randrange(1, 7)):
+                k = rng.randrange(10)
+                if k == 0: l = ""
+                elif k == 1: l = rng.choice(DEDENT_INDENTS)                       # whitespace only
+                elif k < 6: l = base + rng.choice(DEDENT_INDENTS[:7] + [""] * 4) + rng.choice(DEDENT_BODIES)
+                else: l = rng.choice(DEDENT_INDENTS) + rng.choice(DEDENT_BODIES)
+                if rng.random() < 0.1: l += "\r"
+                lines.append(l)
+            first = rng.choice(["  ", "    ", "", "\t", base])
+            doc = first + "x = " + TQ + "\n" + "\n".join(lines) + "\n" + rng.choice(["", "  ", base, "\t"]) + TQ + rng.choice(["", "\n", "\n\n", "\n  "])
+            dcases.append({"leg": "jsontext", "kind": "dedent", "hex": doc.encode("utf8").hex()})
+    if not dcases:
+        return
+    res = harness("c18", [{"ty": "dedent", "hex": c["hex"]} for c in dcases])
+    items, idx = [], []
+    for i, (c, r) in enumerate(zip(dcases, res)):
+        x = r.get("ok", {}).get("x") if isinstance(r.get("ok"), dict) else None
+        if isinstance(x, str) and len(r["ok"]) == 1:
+            items.append(capp("dedent_check", hexb(bytes.fromhex(c["hex"])), hexb(x.encode("utf8"))))
+            idx.append(i)
+    hdr = ("From Coq Require Import ZArith List String Uint63.\nImport ListNotations.\n"
+           "From L21 Require Import Serde.SerdeGeneric Serde.SerdeCheck Serde.JsonText Serde.JsonTextCheck.\nOpen Scope Z_scope.\n")
+    out = coq_eval_lists(hdr, items, chk.rundir, "c18d", shard=max(1, (len(items) + 7) // 8)) if items else []
+    codes = [parse_z(s) for s in out]
+    chk.cov["evaluations"] += len(dcases)
+    chk.cov["distinct_nontrivial"] += len({dcases[i]["hex"] for i in idx})
+    chk.cov["traces_validated_against_impl"] += codes.count(0)
+    chk.cov["input_distribution"]["dedent_probe"] = {"documents": len(dcases), "read_by_toml_and_compared": len(idx), "codes": {str(k): codes.count(k) for k in sorted(set(codes))}}
+    bad = [(dcases[i], res[i]) for i, k in zip(idx, codes) if k != 0]
+    chk.cov["correspondence_mismatches"] += len(bad)
+    if bad:
+        c, r = min(bad, key=lambda x: len(x[0]["hex"]))
+        chk.broken.append("correspondence C18 dedent: the model's dedent (coq/Serde/JsonText.v) differs from textwrap::dedent (%d cases), smallest document %r -> %s"
+                          % (len(bad), bytes.fromhex(c["hex"]).decode("utf8"), json.dumps(r)[:300]))
